@@ -52,6 +52,13 @@ CLAIMED = {
          "when full, release frees exactly one), Exclusive, InRangeNotNetNotBroadcast. The FIFO model as coded is model-checked to refine the set allocator on complete state graphs (2 and 4 addresses).",
          "Concurrent schedules are those the Go scheduler produced in the run (sampled); the end-to-end part (UE IP Address IEs in Created PDR) is judged by C06_AddressInPoolAndExclusive in the traces of C05/C07. " + TRUST,
          "5 C06"),
+ "C05": ("TLA+ R-specs Pfcp (sessions, set-based allocators) + BessImage: TLC judges tables and the guarded state snapshot after every step of attach/detach cycles and random histories of the real agent",
+         "For each way a session can end (Session Deletion, Association Release, Session Report answered 'context not found', unanswered heartbeats, read time-out), more attach/detach cycles than the /30 and /29 pools "
+         "have addresses are executed against the real agent process, preceded by accepted and rejected requests (also ones rejected mid-way: second Create PDR without FAR ID, Remove of an unknown id after applied removes); "
+         "TLC evaluates NoDatapathResidue on the BESS tables and, on the guarded read-only snapshot, SessionRecordsForgotten, AddressesReturned, TeidsReturned and GaugeCountsLiveSessions against the reference state, "
+         "plus AddressInPoolAndExclusive on every address handed out (so a pool that leaks is also seen as an illegal refusal).",
+         "BESS datapath only so far (UP4 pools are part of C04/C15 once built); heartbeat / time-out endings use short timers (60 ms / 1 s). " + TRUST,
+         "5 C05"),
 }
 
 def hooks_commits():
